@@ -511,7 +511,7 @@ func c02RunReal(c *core.Ctx) {
 }
 
 func init() {
-	sizes := map[core.Tier]int{core.Quick: 48 + 12000, core.Thorough: 1500 + 150000}
+	sizes := map[core.Tier]int{core.Quick: 48 + 12000, core.Thorough: 1500 + 1000000}
 	core.Register(&core.Prop{
 		ID:    "C02",
 		Level: "exploration",
